@@ -18,6 +18,8 @@ CONSTANTS
   BAbort = 1000000
   BSendFail = 1000000
   Depth = 0
+  Locks = FALSE
+  HandlerReadsState = FALSE
 INIT TInit
 NEXT TNext
 POSTCONDITION Accepted
